@@ -2,9 +2,44 @@
   C20 — ARM/RISC-V build attributes and ARM unwind tables are decoded exactly.
 
   Property theorems only (proofs in Proofs/Attrs*.lean, Proofs/AttrTie.lean, Proofs/EhabiEntry.lean,
-  Proofs/EhabiImage.lean, Proofs/EhabiBytecode.lean).  `pre`/`gap`/`rest` are arbitrary surrounding
-  bytes; the models are the mirrors of the (fixed) Python in Model/Attributes.lean, Model/Ehabi.lean;
-  `Gen.*` is regenerated from the tree on every run.
+  Proofs/EhabiImage.lean, Proofs/EhabiBytecode.lean; fifth wave: Proofs/AttrFile.lean,
+  Proofs/EhabiFile.lean, Proofs/AttrHistory.lean, Proofs/AttrErrors.lean).  `pre`/`gap`/`rest` are
+  arbitrary surrounding bytes; the models are the mirrors of the (fixed) Python in
+  Model/Attributes.lean, Model/Ehabi.lean, Model/AttrFile.lean, Model/AttrHistory.lean; `Gen.*` is
+  regenerated from the tree on every run.
+
+  What is proved (no `sorry`):
+    sections   `attrs_roundtrip(_gen)`, `prel31_eq_std`, `entry_classification_exact`,
+               `reference_decoder_inverts_encoding`, `exidx_roundtrip`, `bytecode_eq_std`;
+               `exidx_roundtrip_anywhere`: the handler table anywhere in the file (before / after the
+               index table, in another section).
+    whole files (fifth wave, composition with C01: `d` an abstract ELF description, `bytes` ANY byte
+               string with `Layout d bytes`, `d.wfZ env`):
+               `file_attributes_exact`, `file_attributes_by_name_exact`, `file_attributes_by_name_eq`,
+               `file_attributes_reduce` — `ELFFile(BytesIO(bytes)).get_section(i)` /
+               `.get_section_by_name(name)` is the attributes class of the machine and iterates to
+               exactly the description; `file_ehabi_exact`, `file_ehabi_reduce`,
+               `file_entry_classification_exact`, `file_ehabi_out_of_range`, `file_ehabi_infos_eq` —
+               `EHABIInfo(get_section(i), little_endian)` and `get_ehabi_infos()[k]`: `num_entry()`,
+               `get_entry(n)` for all n, table references resolved by file offset; the `_generated`
+               forms are about the very functions the driver runs (Props/TieC20File.lean).
+    order      `generator_resume_independent_of_stream`, `interleaving_irrelevant`,
+               `answers_independent_of_history`, `generator_enumerates_list`, `section_generators_exact`,
+               `generator_answers_under_any_interleaving`, `levelwise_eq_nested`, `levelwise_roundtrip`: the answers of the generator API do not depend on where the shared
+               stream stands nor on what was called in between; listing first and reading later gives
+               the tree the nested observation gives.
+    malformed  `attrs_unknown_tag`, `file_attributes_unknown_tag` (ELFParseError at the first unknown
+               tag), `attrs_size_overrun` / `file_attributes_size_overrun` (`sh_size` beyond the end of
+               the file: ELFParseError after the last subsection), `attrs_truncated` /
+               `file_attributes_truncated` (the file ends after ANY byte of the section: ELFParseError),
+               `wellformed_prefix_walked`, `bytecode_eq_std` (truncated operands: IndexError),
+               `entry_classification_exact` / `file_entry_classification_exact` (references outside the
+               file: ELFParseError), `file_ehabi_out_of_range` (IndexError).
+  Correspondence-only: sections cut short while the FILE goes on, or with length fields that point into
+  the middle of a structure (the walk then reads whatever bytes follow: no closed form; `attr_raw`,
+  `hist` streams), zero length fields (the Python loops for ever: model `outOfFuel`), compressed attribute
+  sections, `iter_*` with a filter argument, files C01 does not call well-formed, and the tie of the
+  hand-written mirrors to the Python text (every stream compares impl == model).
 -/
 import PyElf.Spec.Attributes
 import PyElf.Spec.Ehabi
@@ -17,6 +52,14 @@ import PyElf.Proofs.EhabiEntry
 import PyElf.Proofs.EhabiImage
 import PyElf.Proofs.EhabiBytecode
 import PyElf.Props.TieC20
+import PyElf.Props.TieC20File
+import PyElf.Proofs.AttrFile
+import PyElf.Proofs.EhabiFile
+import PyElf.Proofs.AttrHistory
+import PyElf.Proofs.AttrGenerators
+import PyElf.Proofs.AttrErrors
+import PyElf.Proofs.AttrTrunc
+import PyElf.Proofs.C20Examples
 namespace PyElf.Props.C20
 open PyElf PyElf.Spec
 
@@ -132,5 +175,494 @@ theorem bytecode_eq_std (arr : Bytes) :
 example : Ehabi.ehabiStd [0xb2, 0x81, 0x82, 0x01, 0x00, 0xb0]
     = some [([0xb2, 0x81, 0x82, 0x01], "vsp = vsp + 67080"), ([0x00], "vsp = vsp + 4"), ([0xb0], "finish")] := by
   decide
+
+/-! ## Fifth wave
+
+  ### exception tables whose handler table lies anywhere -/
+
+/-- `exidx_roundtrip` freed from the image shape `encImage`: for ANY byte string in which the index
+    table of `es` sits at `shOffset` and the handler-table entries sit consecutively at `tab0` —
+    before the index table, after it, in another section — with every reference expressible as a
+    prel31 offset (`refsOk`), `get_entry(i)` is exactly entry `i`. -/
+theorem exidx_roundtrip_anywhere (env : Env) (le : Bool) (data irest trest : Bytes) (shOffset tab0 : Nat)
+    (es : List Ehabi.Entry) (i : Nat) (hi : i < es.length) (hwf : es.all Ehabi.entryWf = true)
+    (hidx : data.drop shOffset = Ehabi.encExidxFrom le shOffset es (Ehabi.tableOffsets tab0 es) ++ irest)
+    (htab : data.drop tab0 = Ehabi.encWords le (C20.tableWordsOf es) ++ trest)
+    (hrefs : C20.refsOk shOffset es (Ehabi.tableOffsets tab0 es) = true)
+    (hsize : shOffset + 8 * es.length < 2 ^ 62) :
+    Model.Ehabi.getEntry env (Spec.ehabiStructs le) data shOffset (8 * es.length) i
+      = .ok (Ehabi.obsEntry es[i] (shOffset + 8 * i) (Proofs.tabOf tab0 es i)) :=
+  Proofs.C20.getEntry_tables env le data irest trest shOffset tab0 es i hi hwf hidx htab hrefs hsize
+
+/-- the handler table 4 bytes into a region BEFORE the index table (negative references) -/
+example : C20.refsOk 400 Proofs.C20.exEntries (Ehabi.tableOffsets 100 Proofs.C20.exEntries) = true := by decide
+
+/-! ### whole files (composition with C01)
+
+  `d` is an abstract ELF description (Spec/ElfImage.lean), `bytes` ANY byte string that carries it
+  (`Layout d bytes`: header, tables and section bodies sit where the description puts them, nothing
+  else is constrained), `d.wfZ env` C01's well-formedness (compressed sections admitted), `obs` what
+  C01 says must be reported.  The struct factory and machine classification `Proofs.specSF` /
+  `Proofs.specMC` are C01's `specStructs` / `specMachineClass` (`C01.specStructs_eq`); the `_generated`
+  forms replace them by the regenerated ones the driver runs.  The model functions
+  (Model/AttrFile.lean) are C01's mirror of elffile.py followed by the attribute / EHABI mirrors on the
+  header the file object decoded.  `C20.attrSecAt arch d i sec`: the machine is `arch`'s, section `i`
+  has raw type 0x70000003, is not flagged SHF_COMPRESSED, its body is the Spec encoding of the
+  well-formed `sec` and `sh_size` the encoding's length (decidable; Spec/C20File.lean). -/
+
+open PyElf.Model PyElf.Model.C20 PyElf.Proofs PyElf.Proofs.C20 in
+/-- `ELFFile(BytesIO(bytes)).get_section(i)` is an `ARMAttributesSection` / `RISCVAttributesSection`
+    and `iter_subsections() → iter_subsubsections() → iter_attributes()` yield exactly the description. -/
+theorem file_attributes_exact (env : Env) (he : EnvC20 env) (arch : Attr.Arch)
+    (htags : ∀ t : Nat, env.enumDecode (Proofs.tagTableId arch) (t : Int) = Attr.tagName arch t)
+    (d : ElfDesc) (bytes : Bytes) (obs : ElfObs)
+    (hwf : d.wfZ env = true) (hl : Layout d bytes) (ho : d.observe env = .ok obs)
+    (i : Nat) (sec : Attr.Section) (hsec : C20.attrSecAt arch d i sec = true) :
+    fileAttrSection env specSF specMC bytes i = .ok (C20.attrKindName arch, Attr.obsSection arch d.le sec) := by
+  obtain ⟨sd, hsd, F⟩ := attrSecAt_unpack hsec
+  exact fileAttrSection_ok he htags hwf hl ho hsd F
+
+open PyElf.Model PyElf.Model.C20 PyElf.Proofs PyElf.Proofs.C20 in
+/-- the same through `get_section_by_name(name)`, `i` being the section the name designates (the last
+    one bearing it) -/
+theorem file_attributes_by_name_exact (env : Env) (he : EnvC20 env) (arch : Attr.Arch)
+    (htags : ∀ t : Nat, env.enumDecode (Proofs.tagTableId arch) (t : Int) = Attr.tagName arch t)
+    (d : ElfDesc) (bytes : Bytes) (obs : ElfObs)
+    (hwf : d.wfZ env = true) (hl : Layout d bytes) (ho : d.observe env = .ok obs)
+    (name : Bytes) (i : Nat) (hname : d.indexOfName name = some i)
+    (sec : Attr.Section) (hsec : C20.attrSecAt arch d i sec = true) :
+    fileAttrSectionByName env specSF specMC bytes name
+      = .ok (some (C20.attrKindName arch, Attr.obsSection arch d.le sec)) := by
+  obtain ⟨sd, hsd, F⟩ := attrSecAt_unpack hsec
+  exact fileAttrSectionByName_ok he htags hwf hl ho hname hsd F
+
+open PyElf.Model PyElf.Model.C20 PyElf.Proofs PyElf.Proofs.C20 in
+/-- for EVERY name and whatever the sections contain: `get_section_by_name(name)` is `None` when no
+    section bears the name and `get_section(i)` for the last section `i` that does -/
+theorem file_attributes_by_name_eq (env : Env) (d : ElfDesc) (bytes : Bytes) (obs : ElfObs)
+    (hwf : d.wfZ env = true) (hl : Layout d bytes) (ho : d.observe env = .ok obs) (name : Bytes) :
+    fileAttrSectionByName env specSF specMC bytes name =
+      match d.indexOfName name with
+      | none => .ok none
+      | some i => (fileAttrSection env specSF specMC bytes i).map some :=
+  fileAttrSectionByName_eq hwf hl ho name
+
+open PyElf.Model PyElf.Model.C20 PyElf.Proofs PyElf.Proofs.C20 in
+/-- Reduction, with no hypothesis on the contents: `get_section(i)` of an uncompressed section of the
+    machine's attributes type is the attributes class, and its iteration IS the attribute walk at
+    (`sh_offset`, `sh_size`) of the description's header with the description's bundle.  Every
+    section-level theorem of this file (round trip, malformed input) thereby speaks about whole files. -/
+theorem file_attributes_reduce (env : Env) (he : EnvC20 env) (arch : Attr.Arch)
+    (d : ElfDesc) (bytes : Bytes) (obs : ElfObs)
+    (hwf : d.wfZ env = true) (hl : Layout d bytes) (ho : d.observe env = .ok obs)
+    (i : Nat) (sd : SecDesc) (hsd : d.sections[i]? = some sd)
+    (hm : d.mclass = C20.mclassOf arch) (hty : Fields.get? sd.hdr "sh_type" = some (.int 0x70000003))
+    (hplain : getNatD sd.hdr "sh_flags" &&& 0x800 = 0) :
+    fileAttrSection env specSF specMC bytes i
+      = (Model.Attr.attributesSection arch env (elfStructs d.cfg) bytes (getNatD sd.hdr "sh_offset")
+          (getNatD sd.hdr "sh_size")).map fun t => (C20.attrKindName arch, t) :=
+  fileAttrSection_reduce he hwf hl ho hsd hm hty hplain
+
+open PyElf.Model PyElf.Model.C20 PyElf.Proofs PyElf.Proofs.C20 in
+/-- closed over the whole tie: the functions the driver runs on every generated file — regenerated
+    enum tables, struct factory and machine classification -/
+theorem file_attributes_exact_generated (arch : Attr.Arch) (d : ElfDesc) (bytes : Bytes) (obs : ElfObs)
+    (hwf : d.wfZ Model.elfEnv = true) (hl : Layout d bytes) (ho : d.observe Model.elfEnv = .ok obs)
+    (i : Nat) (sec : Attr.Section) (hsec : C20.attrSecAt arch d i sec = true) :
+    fileAttrSection Model.elfEnv Model.elfStructsFor Model.machineClassOf bytes i
+      = .ok (C20.attrKindName arch, Attr.obsSection arch d.le sec) := by
+  rw [TieC20File.fileAttrSection_generated]
+  exact file_attributes_exact _ TieC20File.elfEnv_c20 arch
+    (by cases arch
+        · exact Proofs.genEnumDecode_arm
+        · exact Proofs.genEnumDecode_riscv) d bytes obs hwf hl ho i sec hsec
+
+open PyElf.Model PyElf.Model.C20 PyElf.Proofs PyElf.Proofs.C20 in
+theorem file_attributes_by_name_exact_generated (arch : Attr.Arch) (d : ElfDesc) (bytes : Bytes) (obs : ElfObs)
+    (hwf : d.wfZ Model.elfEnv = true) (hl : Layout d bytes) (ho : d.observe Model.elfEnv = .ok obs)
+    (name : Bytes) (i : Nat) (hname : d.indexOfName name = some i)
+    (sec : Attr.Section) (hsec : C20.attrSecAt arch d i sec = true) :
+    fileAttrSectionByName Model.elfEnv Model.elfStructsFor Model.machineClassOf bytes name
+      = .ok (some (C20.attrKindName arch, Attr.obsSection arch d.le sec)) := by
+  rw [TieC20File.fileAttrSectionByName_generated]
+  exact file_attributes_by_name_exact _ TieC20File.elfEnv_c20 arch
+    (by cases arch
+        · exact Proofs.genEnumDecode_arm
+        · exact Proofs.genEnumDecode_riscv) d bytes obs hwf hl ho name i hname sec hsec
+
+/-! non-vacuity.  `attrSecAt` / `exidxAt` / `indexOfName` are kernel-checked on the concrete
+    descriptions of Proofs/C20Examples.lean (an ARM shared object with two sections named
+    `.ARM.attributes`, `.ARM.extab`, `.ARM.exidx`; a big-endian RISC-V executable).  `ElfDesc.wfZ` and
+    `observe` go through `Con.encodeRaw` / `Con.decodeRaw`, which are compiled by well-founded recursion
+    and do not reduce in the kernel (as in C01 / C14 / C15): they are evaluated at build time by
+    `#guard`, and by the driver on every description of the `file_attr` / `file_ehabi` streams (the
+    harness counts the cases inside the theorems' domain as `file_*:theorem-domain`).
+    `C01.assemble_layout_z` produces layouts. -/
+
+example : C20.attrSecAt .arm Proofs.C20.exArmFile 1 Proofs.C20.exArmSec = true := by decide
+example : C20.attrSecAt .arm Proofs.C20.exArmFile 4 Proofs.C20.exArmSec2 = true := by decide
+/-- by name: the LATER of the two sections called `.ARM.attributes` -/
+example : Proofs.C20.exArmFile.indexOfName Proofs.C20.nAttr = some 4 := by decide
+example : C20.attrSecAt .riscv Proofs.C20.exRiscvFile 2 Proofs.C20.exRiscvSec = true := by decide
+#guard Proofs.C20.exArmFile.wfZ Model.elfEnv && (Proofs.C20.exArmFile.observe Model.elfEnv).toOption.isSome &&
+  (Proofs.C20.exArmFile.assemble 3).isSome
+#guard Proofs.C20.exRiscvFile.wfZ Model.elfEnv && (Proofs.C20.exRiscvFile.observe Model.elfEnv).toOption.isSome &&
+  (Proofs.C20.exRiscvFile.assemble 0).isSome
+
+/-! ### exception tables in whole files
+
+  `C20.exidxAt d i x xpre es`: an ARM file whose section `i` has raw type 0x70000001, body the index
+  table of the well-formed `es` and `sh_size = 8 * |es|`; the handler-table entries lie consecutively
+  in the body of section `x`, `xpre` bytes in; every reference is expressible (`refsOk`); the index
+  table lies below 2^62.  `EHABIInfo` never consults `sh_link`: the table words are read through the
+  file's stream at the offsets the index words encode. -/
+
+open PyElf.Model PyElf.Model.C20 PyElf.Proofs PyElf.Proofs.C20 in
+/-- `EHABIInfo(ELFFile(BytesIO(bytes)).get_section(i), elffile.little_endian)`: `num_entry()` is the
+    number of entries and `get_entry(n)`, for every `n`, is exactly entry `n` — function address, kind,
+    personality, byte-code and (long forms) the file offset of its `.ARM.extab` entry. -/
+theorem file_ehabi_exact (env : Env) (he : EnvC20 env) (d : ElfDesc) (bytes : Bytes) (obs : ElfObs)
+    (hwf : d.wfZ env = true) (hl : Layout d bytes) (ho : d.observe env = .ok obs)
+    (i x xpre : Nat) (es : List Ehabi.Entry) (hex : C20.exidxAt d i x xpre es = true) :
+    fileEhabiNumEntry env specSF specMC specEH bytes i = .ok es.length ∧
+    ∀ n (hn : n < es.length), fileEhabiEntry env specSF specMC specEH bytes i n
+      = .ok (Ehabi.obsEntry es[n] (C20.secOffset d i + 8 * n) (Proofs.tabOf (C20.secOffset d x + xpre) es n)) := by
+  obtain ⟨sd, sx, hsd, hsx, F⟩ := exidxAt_unpack hex
+  have e1 : C20.secOffset d i = getNatD sd.hdr "sh_offset" := by simp [C20.secOffset, hsd]
+  have e2 : C20.secOffset d x = getNatD sx.hdr "sh_offset" := by simp [C20.secOffset, hsx]
+  rw [e1, e2]
+  exact fileEhabi_ok he hwf hl ho hsd hsx F
+
+open PyElf.Model PyElf.Model.C20 PyElf.Proofs PyElf.Proofs.C20 in
+theorem file_ehabi_exact_generated (d : ElfDesc) (bytes : Bytes) (obs : ElfObs)
+    (hwf : d.wfZ Model.elfEnv = true) (hl : Layout d bytes) (ho : d.observe Model.elfEnv = .ok obs)
+    (i x xpre : Nat) (es : List Ehabi.Entry) (hex : C20.exidxAt d i x xpre es = true) :
+    fileEhabiNumEntry Model.elfEnv Model.elfStructsFor Model.machineClassOf Model.ehabiStructsFor bytes i = .ok es.length ∧
+    ∀ n (hn : n < es.length),
+      fileEhabiEntry Model.elfEnv Model.elfStructsFor Model.machineClassOf Model.ehabiStructsFor bytes i n
+        = .ok (Ehabi.obsEntry es[n] (C20.secOffset d i + 8 * n) (Proofs.tabOf (C20.secOffset d x + xpre) es n)) := by
+  rw [TieC20File.fileEhabiNumEntry_generated]
+  simp only [TieC20File.fileEhabiEntry_generated]
+  exact file_ehabi_exact _ TieC20File.elfEnv_c20 d bytes obs hwf hl ho i x xpre es hex
+
+open PyElf.Model PyElf.Model.C20 PyElf.Proofs PyElf.Proofs.C20 in
+/-- Reduction, for ANY contents of an SHT_ARM_EXIDX section of an ARM file: `get_entry(n)` and
+    `num_entry()` of the `EHABIInfo` over `get_section(i)` are the section-level functions at
+    (`sh_offset`, `sh_size`) of the description's header, on the whole byte string. -/
+theorem file_ehabi_reduce (env : Env) (he : EnvC20 env) (d : ElfDesc) (bytes : Bytes) (obs : ElfObs)
+    (hwf : d.wfZ env = true) (hl : Layout d bytes) (ho : d.observe env = .ok obs)
+    (i : Nat) (sd : SecDesc) (hsd : d.sections[i]? = some sd)
+    (hm : d.mclass = "EM_ARM") (hty : Fields.get? sd.hdr "sh_type" = some (.int 0x70000001)) (n : Nat) :
+    fileEhabiEntry env specSF specMC specEH bytes i n
+      = Model.Ehabi.getEntry env (Spec.ehabiStructs d.le) bytes (getNatD sd.hdr "sh_offset") (getNatD sd.hdr "sh_size") n ∧
+    fileEhabiNumEntry env specSF specMC specEH bytes i = .ok (getNatD sd.hdr "sh_size" / 8) :=
+  fileEhabiEntry_reduce he hwf hl ho hsd hm hty n
+
+open PyElf.Model PyElf.Model.C20 PyElf.Proofs PyElf.Proofs.C20 in
+/-- `entry_classification_exact` for whole files: whatever the index section and the rest of the file
+    contain, `get_entry(n)` (n in range) classifies and unpacks the entry exactly as the EHABI reference
+    decoder reads it off the words of the FILE; a reference outside the file is ELFParseError. -/
+theorem file_entry_classification_exact (env : Env) (he : EnvC20 env) (d : ElfDesc) (bytes : Bytes) (obs : ElfObs)
+    (hwf : d.wfZ env = true) (hl : Layout d bytes) (ho : d.observe env = .ok obs)
+    (i : Nat) (sd : SecDesc) (hsd : d.sections[i]? = some sd)
+    (hm : d.mclass = "EM_ARM") (hty : Fields.get? sd.hdr "sh_type" = some (.int 0x70000001)) (n : Nat)
+    (hn : n < getNatD sd.hdr "sh_size" / 8) (hplace : getNatD sd.hdr "sh_offset" + 8 * n + 8 < 2 ^ 63)
+    (htab : ∀ w1, Ehabi.wordAt d.le bytes (getNatD sd.hdr "sh_offset" + 8 * n + 4) = some w1 →
+              Ehabi.expand w1 (getNatD sd.hdr "sh_offset" + 8 * n + 4) < 2 ^ 63) :
+    fileEhabiEntry env specSF specMC specEH bytes i n
+      = (match Ehabi.decodeEntry (Ehabi.wordAt d.le bytes) (getNatD sd.hdr "sh_offset" + 8 * n) with
+         | some dd => .ok (Ehabi.obsDecoded dd)
+         | none => .error .elfParseError) := by
+  rw [(fileEhabiEntry_reduce he hwf hl ho hsd hm hty n).1]
+  exact Proofs.getEntry_eq_std env d.le bytes _ _ n hn hplace htab
+
+open PyElf.Model PyElf.Model.C20 PyElf.Proofs PyElf.Proofs.C20 in
+/-- an index at or beyond `num_entry()`: IndexError -/
+theorem file_ehabi_out_of_range (env : Env) (he : EnvC20 env) (d : ElfDesc) (bytes : Bytes) (obs : ElfObs)
+    (hwf : d.wfZ env = true) (hl : Layout d bytes) (ho : d.observe env = .ok obs)
+    (i : Nat) (sd : SecDesc) (hsd : d.sections[i]? = some sd)
+    (hm : d.mclass = "EM_ARM") (hty : Fields.get? sd.hdr "sh_type" = some (.int 0x70000001))
+    (n : Nat) (hn : getNatD sd.hdr "sh_size" / 8 ≤ n) :
+    fileEhabiEntry env specSF specMC specEH bytes i n = .error .indexError :=
+  fileEhabi_out_of_range he hwf hl ho hsd hm hty hn
+
+open PyElf.Model PyElf.Model.C20 PyElf.Proofs PyElf.Proofs.C20 in
+/-- `ELFFile.get_ehabi_infos()` of a file that is not relocatable (`notRel`; ET_REL is an
+    `assert False` in the library): `get_ehabi_infos()[k].get_entry(n)` is
+    `EHABIInfo(get_section(i), little_endian).get_entry(n)` for the `k`-th section `i` (in file order)
+    that a reader reports with type SHT_ARM_EXIDX (`exidxIndices obs`); when there is none the result is
+    `None` (subscripting it: TypeError), `k` beyond the list is IndexError.  Together with
+    `file_ehabi_exact` / `file_entry_classification_exact`: every entry of every info. -/
+theorem file_ehabi_infos_eq (env : Env) (d : ElfDesc) (bytes : Bytes) (obs : ElfObs)
+    (hwf : d.wfZ env = true) (hl : Layout d bytes) (ho : d.observe env = .ok obs) (hnr : C20.notRel obs = true)
+    (k n : Nat) :
+    fileEhabiInfosEntry env specSF specMC specEH bytes k n
+      = (if C20.exidxIndices obs = [] then .error .typeError
+         else match (C20.exidxIndices obs)[k]? with
+           | none => .error .indexError
+           | some i => fileEhabiEntry env specSF specMC specEH bytes i n) :=
+  fileEhabiInfosEntry_eq hwf hl ho hnr k n
+
+open PyElf.Model PyElf.Model.C20 PyElf.Proofs PyElf.Proofs.C20 in
+theorem file_ehabi_infos_eq_generated (d : ElfDesc) (bytes : Bytes) (obs : ElfObs)
+    (hwf : d.wfZ Model.elfEnv = true) (hl : Layout d bytes) (ho : d.observe Model.elfEnv = .ok obs)
+    (hnr : C20.notRel obs = true) (k n : Nat) :
+    fileEhabiInfosEntry Model.elfEnv Model.elfStructsFor Model.machineClassOf Model.ehabiStructsFor bytes k n
+      = (if C20.exidxIndices obs = [] then .error .typeError
+         else match (C20.exidxIndices obs)[k]? with
+           | none => .error .indexError
+           | some i => fileEhabiEntry Model.elfEnv Model.elfStructsFor Model.machineClassOf Model.ehabiStructsFor bytes i n) := by
+  rw [TieC20File.fileEhabiInfosEntry_generated]
+  simp only [TieC20File.fileEhabiEntry_generated]
+  exact file_ehabi_infos_eq _ d bytes obs hwf hl ho hnr k n
+
+/-- the index table of Proofs/C20Examples.lean: section 3, AFTER `.ARM.extab` (section 2, table 4 bytes
+    in): a cannot-unwind, an inline, a long compact and a generic entry, negative table references -/
+example : C20.exidxAt Proofs.C20.exArmFile 3 2 4 Proofs.C20.exEntries = true := by decide
+#guard (match Proofs.C20.exArmFile.observe Model.elfEnv with
+        | .ok o => C20.notRel o && C20.exidxIndices o == [3]
+        | .error _ => false)
+
+/-! ### order-independence of the attribute API
+
+  Model/AttrHistory.lean: objects are immutable, a suspended generator keeps its own `offset`, the only
+  shared mutable state is the position of the file's stream (`HState.pos`), which every resumption
+  receives and returns (`Gen.resume`).  `Op.seek` stands for ANY other reader of the stream between two
+  calls.  (The harness stream `hist` runs the same histories through the library and compares every
+  answer and the stream position after every call.) -/
+
+open PyElf.Model.C20 in
+/-- a resumed generator — `next()` on the result of `iter_subsections()`, `iter_subsubsections()`,
+    `iter_attributes()` — goes one of three ways, each UNIFORMLY in where the shared stream stands:
+    StopIteration (the stream is left where it was), an item and a stream position that depend on the
+    generator alone, or an exception -/
+theorem generator_resume_independent_of_stream (env : Env) (S : ElfStructs) (data : Bytes) (g : Gen) :
+    (∀ q, Gen.resume env S data g q = .ok (none, q)) ∨
+    (∃ x q, ∀ q', Gen.resume env S data g q' = .ok (some x, q)) ∨
+    (∃ e, ∀ q', Gen.resume env S data g q' = .error e) :=
+  Proofs.C20.resume_cases g
+
+open PyElf.Model.C20 in
+/-- In any state in which handle `g` holds the generator `gen`, and for ANY history `ops` —
+    repositioning of the shared stream, creating / advancing / draining / abandoning other generators
+    of this or ANOTHER section of the file, section constructors, list-style properties — the answers to
+    the `next(g)` calls are exactly what `gen` answers when it is advanced alone. -/
+theorem interleaving_irrelevant (env : Env) (S : ElfStructs) (data : Bytes) (fuel g : Nat) (ops : List Op)
+    (st : HState) (gen : Gen) (hg : st.gens[g]? = some gen) :
+    Proofs.C20.nextAnswers env S data g fuel st ops
+      = Proofs.C20.soloAnswers env S data gen (ops.countP (Op.isNext g)) :=
+  Proofs.C20.interleaving_irrelevant fuel g ops st gen hg
+
+open PyElf.Model.C20 in
+/-- … hence two histories that advance the generator equally often get the same answers from it,
+    whatever else they do -/
+theorem answers_independent_of_history (env : Env) (S : ElfStructs) (data : Bytes) (fuel g : Nat)
+    (st st' : HState) (gen : Gen) (hg : st.gens[g]? = some gen) (hg' : st'.gens[g]? = some gen)
+    (ops ops' : List Op) (hc : ops.countP (Op.isNext g) = ops'.countP (Op.isNext g)) :
+    Proofs.C20.nextAnswers env S data g fuel st ops = Proofs.C20.nextAnswers env S data g fuel st' ops' :=
+  Proofs.C20.answers_independent_of_history fuel g st st' gen hg hg' ops ops' hc
+
+/-- a fresh attribute generator in a state whose stream stands anywhere, advanced twice with a seek, a
+    second generator and a list-style call in between: 2 of the 6 calls are `next(0)` -/
+example : ([Model.C20.Op.next 0, .seek 7, .iterAttrs ⟨.arm, 0, ⟨.none, .none, .none, false⟩, 0⟩, .next 1,
+            .listAttrs ⟨.arm, 0, ⟨.none, .none, .none, false⟩, 0⟩, .next 0].countP (Model.C20.Op.isNext 0)) = 2 := by
+  decide
+
+open PyElf.Model.C20 in
+/-- `list(generator)` and stepping agree: if draining `gen` gives `xs`, advancing it alone answers the
+    items of `xs` in order, then StopIteration for ever -/
+theorem generator_enumerates_list (env : Env) (S : ElfStructs) (data : Bytes) (fuel : Nat) (gen : Gen)
+    (pos : Nat) (xs : List Item) (q : Nat) (h : Gen.collect env S data fuel gen pos [] = .ok (xs, q)) (k : Nat) :
+    Proofs.C20.soloAnswers env S data gen (xs.length + k) = xs.map .item ++ List.replicate k .stop := by
+  obtain ⟨ys, hxs, hsolo⟩ := Proofs.C20.solo_of_collect fuel gen pos [] xs q h
+  simp only [List.reverse_nil, List.nil_append] at hxs
+  subst hxs
+  exact hsolo k
+
+open PyElf.Model.C20 PyElf.Proofs.C20 in
+/-- THE GENERATOR API ON A WELL-FORMED SECTION.  For every well-formed section anywhere in a file: the
+    constructor succeeds, and from ANY position of the shared stream `list(sec.iter_subsections())` is
+    one object per subsection of the description (`SubsecMatch`: its length and vendor name),
+    `list(iter_subsubsections())` of each such object one object per sub-subsection (`SubsubMatch`: its
+    header), and `list(iter_attributes())` of each of those the attribute list of the description
+    (`AttrsExact`) — every one of these generators from any stream position. -/
+theorem section_generators_exact (arch : Attr.Arch) (cfg : ElfCfg) (sec : Attr.Section) (pre rest : Bytes)
+    (hwf : Attr.sectionWf arch cfg.le sec = true) :
+    ∃ o, (∀ p, openSec Model.elfEnv (Spec.elfStructs cfg) (pre ++ Attr.encSection cfg.le sec ++ rest) arch pre.length
+              (Attr.encSection cfg.le sec).length p = .ok (o, pre.length + 1)) ∧
+      ∀ pos, ∃ xs q, Gen.collect Model.elfEnv (Spec.elfStructs cfg) (pre ++ Attr.encSection cfg.le sec ++ rest)
+            ((pre ++ Attr.encSection cfg.le sec ++ rest).length + 3) (.subsecs o o.subsecStart) pos [] = .ok (xs, q) ∧
+          AllMatch (SubsecMatch arch Model.elfEnv cfg (pre ++ Attr.encSection cfg.le sec ++ rest)) xs sec :=
+  Proofs.C20.section_generators_exact (env := Model.elfEnv) (cfg := cfg) (data := pre ++ Attr.encSection cfg.le sec ++ rest)
+    (by cases arch
+        · exact Proofs.genEnumDecode_arm
+        · exact Proofs.genEnumDecode_riscv) sec rest pre.length hwf (Proofs.drop_pre _ _ _)
+
+open PyElf.Model.C20 PyElf.Proofs.C20 in
+/-- … and therefore under ANY interleaving: when `list(gen)` is `zs` (as `section_generators_exact` says
+    of every generator of a well-formed section), then in any state in which handle `g` holds `gen` and
+    for any history `ops`, the answers to the `c` calls `next(g)` are the first `c` of: the items of `zs`
+    in order, then StopIteration for ever — whatever else the history does to the shared stream. -/
+theorem generator_answers_under_any_interleaving (env : Env) (S : ElfStructs) (data : Bytes) (fuel' : Nat) (gen : Gen)
+    (pos : Nat) (zs : List Item) (q : Nat) (hc : Gen.collect env S data fuel' gen pos [] = .ok (zs, q))
+    (fuel g : Nat) (st : HState) (hg : st.gens[g]? = some gen) (ops : List Op) :
+    nextAnswers env S data g fuel st ops
+      = (zs.map Ans.item ++ List.replicate (ops.countP (Op.isNext g)) Ans.stop).take (ops.countP (Op.isNext g)) :=
+  answers_of_collect hc fuel g st hg ops
+
+/-- LEVELWISE = NESTED: whenever the nested observation of a section (every generator drained before
+    the next one is advanced — the subject of `attrs_roundtrip`) returns a tree, listing all subsections
+    first, then the sub-subsections of each, then the attributes of each — all through the one shared
+    stream — returns the same tree.  On every byte string, well formed or not. -/
+theorem levelwise_eq_nested (env : Env) (S : ElfStructs) (data : Bytes) (arch : Attr.Arch) (shOffset shSize : Nat)
+    (v : Val) (h : Model.Attr.attributesSection arch env S data shOffset shSize = .ok v) :
+    Model.C20.levelwise env S data arch shOffset shSize = .ok v :=
+  Proofs.C20.levelwise_of_nested arch shOffset shSize v h
+
+/-- … in particular for every well-formed section: the levelwise observation is the description -/
+theorem levelwise_roundtrip (arch : Attr.Arch) (cfg : ElfCfg) (sec : Attr.Section) (pre rest : Bytes)
+    (hwf : Attr.sectionWf arch cfg.le sec = true) :
+    Model.C20.levelwise Model.elfEnv (Spec.elfStructs cfg) (pre ++ Attr.encSection cfg.le sec ++ rest) arch
+        pre.length (Attr.encSection cfg.le sec).length
+      = .ok (Attr.obsSection arch cfg.le sec) :=
+  levelwise_eq_nested _ _ _ arch _ _ _ (attrs_roundtrip_gen arch cfg sec pre rest hwf)
+
+/-! ### malformed sections -/
+
+/-- UNKNOWN TAG.  When the first malformation of a section in document order is an attribute whose tag
+    number is not in the architecture's public table (`sectionUnknownTag`: every subsection,
+    sub-subsection and attribute before it is well formed, its own sub-subsection and subsection
+    headers are well formed, nothing is asked of what follows), the nested observation raises
+    ELFParseError (the library's `Enum` has no default) — wherever the section sits, whatever follows. -/
+theorem attrs_unknown_tag (arch : Attr.Arch) (cfg : ElfCfg) (sec : Attr.Section) (pre rest : Bytes)
+    (hbad : C20.sectionUnknownTag arch cfg.le sec = true) :
+    Model.Attr.attributesSection arch Model.elfEnv (Spec.elfStructs cfg)
+        (pre ++ Attr.encSection cfg.le sec ++ rest) pre.length (Attr.encSection cfg.le sec).length
+      = .error .elfParseError :=
+  Proofs.C20.attrs_unknown_tag_at (env := Model.elfEnv) (cfg := cfg) (data := pre ++ Attr.encSection cfg.le sec ++ rest)
+    (by cases arch
+        · exact Proofs.genEnumDecode_arm
+        · exact Proofs.genEnumDecode_riscv) sec rest pre.length hbad (Proofs.drop_pre _ _ _)
+
+/-- tag 33 after a well-formed attribute, in the second sub-subsection of the second subsection, with
+    more attributes and a further subsection after it -/
+example : C20.sectionUnknownTag .arm true Proofs.C20.exUnknownTagSec = true := by decide
+
+open PyElf.Model PyElf.Model.C20 PyElf.Proofs PyElf.Proofs.C20 in
+/-- the same for whole files: `get_section(i)` succeeds (the constructor reads the format byte only),
+    the iteration raises ELFParseError -/
+theorem file_attributes_unknown_tag (arch : Attr.Arch) (d : ElfDesc) (bytes : Bytes) (obs : ElfObs)
+    (hwf : d.wfZ Model.elfEnv = true) (hl : Layout d bytes) (ho : d.observe Model.elfEnv = .ok obs)
+    (i : Nat) (sd : SecDesc) (hsd : d.sections[i]? = some sd)
+    (hm : d.mclass = C20.mclassOf arch) (hty : Fields.get? sd.hdr "sh_type" = some (.int 0x70000003))
+    (hplain : getNatD sd.hdr "sh_flags" &&& 0x800 = 0)
+    (sec : Attr.Section) (hbad : C20.sectionUnknownTag arch d.le sec = true)
+    (hbody : sd.body = some (Attr.encSection d.le sec))
+    (hsize : getNatD sd.hdr "sh_size" = (Attr.encSection d.le sec).length) :
+    fileAttrSection Model.elfEnv specSF specMC bytes i = .error .elfParseError := by
+  rw [fileAttrSection_reduce TieC20File.elfEnv_c20 hwf hl ho hsd hm hty hplain, hsize]
+  have hdrop := Proofs.C20.body_drop (layout_facts hl) (List.mem_of_getElem? hsd) hbody
+  have := Proofs.C20.attrs_unknown_tag_at (env := Model.elfEnv) (cfg := d.cfg) (data := bytes)
+    (by cases arch
+        · exact Proofs.genEnumDecode_arm
+        · exact Proofs.genEnumDecode_riscv) sec _ _ hbad hdrop
+  have e : d.cfg.le = d.le := rfl
+  rw [e] at this
+  rw [this]
+  rfl
+
+/-- SIZE RUNNING PAST THE FILE.  A well-formed section with which the file ENDS, under a section header
+    whose `sh_size` claims more than the encoding's length: every subsection is walked (through the
+    generator API: yielded), then the walk looks for another subsection header at the end of the file:
+    ELFParseError. -/
+theorem attrs_size_overrun (arch : Attr.Arch) (cfg : ElfCfg) (sec : Attr.Section) (pre : Bytes) (shSize : Nat)
+    (hwf : Attr.sectionWf arch cfg.le sec = true) (hsize : (Attr.encSection cfg.le sec).length < shSize) :
+    Model.Attr.attributesSection arch Model.elfEnv (Spec.elfStructs cfg)
+        (pre ++ Attr.encSection cfg.le sec) pre.length shSize = .error .elfParseError :=
+  Proofs.C20.attrs_size_overrun_at (env := Model.elfEnv) (cfg := cfg) (data := pre ++ Attr.encSection cfg.le sec)
+    (by cases arch
+        · exact Proofs.genEnumDecode_arm
+        · exact Proofs.genEnumDecode_riscv) sec pre.length shSize hwf (Proofs.drop_pre' _ _) hsize
+
+/-- TRUNCATED FILE.  The file ends inside a well-formed attributes section — after ANY `k` of its bytes
+    (`k` less than its length: inside the format byte, a subsection length, a vendor name, a scope tag, a
+    size field, a section-number list, a tag, a ULEB128 / NTBS / compatibility / nested value) — while
+    the section header still claims the full size: the nested observation raises ELFParseError. -/
+theorem attrs_truncated (arch : Attr.Arch) (cfg : ElfCfg) (sec : Attr.Section) (pre : Bytes) (k : Nat)
+    (hwf : Attr.sectionWf arch cfg.le sec = true) (hk : k < (Attr.encSection cfg.le sec).length) :
+    Model.Attr.attributesSection arch Model.elfEnv (Spec.elfStructs cfg)
+        (pre ++ (Attr.encSection cfg.le sec).take k) pre.length (Attr.encSection cfg.le sec).length
+      = .error .elfParseError :=
+  Proofs.C20.attrs_truncated_at (env := Model.elfEnv) (cfg := cfg) (data := pre ++ (Attr.encSection cfg.le sec).take k)
+    (by cases arch
+        · exact Proofs.genEnumDecode_arm
+        · exact Proofs.genEnumDecode_riscv) sec pre.length k hwf (Proofs.drop_pre' _ _) hk
+
+/-- a cut after 23 of the 61 bytes of the section of Proofs/C20Examples.lean (inside an NTBS) -/
+example : (23 : Nat) < (Attr.encSection true Proofs.C20.exArmSec).length := by decide
+
+open PyElf.Model PyElf.Model.C20 PyElf.Proofs PyElf.Proofs.C20 in
+/-- … for whole files: a description whose attributes section claims (`sh_size`) the length of the
+    encoding of a well-formed `sec`, in a byte string that ENDS `k` bytes into it (`hfile`; the
+    description's body is what the file holds): `get_section(i)` succeeds for `k ≥ 1` and the
+    iteration raises ELFParseError. -/
+theorem file_attributes_truncated (arch : Attr.Arch) (d : ElfDesc) (bytes : Bytes) (obs : ElfObs)
+    (hwf : d.wfZ Model.elfEnv = true) (hl : Layout d bytes) (ho : d.observe Model.elfEnv = .ok obs)
+    (i : Nat) (sd : SecDesc) (hsd : d.sections[i]? = some sd)
+    (hm : d.mclass = C20.mclassOf arch) (hty : Fields.get? sd.hdr "sh_type" = some (.int 0x70000003))
+    (hplain : getNatD sd.hdr "sh_flags" &&& 0x800 = 0)
+    (sec : Attr.Section) (hsec : Attr.sectionWf arch d.le sec = true) (k : Nat)
+    (hk : k < (Attr.encSection d.le sec).length)
+    (hsize : getNatD sd.hdr "sh_size" = (Attr.encSection d.le sec).length)
+    (hfile : bytes.drop (getNatD sd.hdr "sh_offset") = (Attr.encSection d.le sec).take k) :
+    fileAttrSection Model.elfEnv specSF specMC bytes i = .error .elfParseError := by
+  rw [fileAttrSection_reduce TieC20File.elfEnv_c20 hwf hl ho hsd hm hty hplain, hsize]
+  have := Proofs.C20.attrs_truncated_at (env := Model.elfEnv) (cfg := d.cfg) (data := bytes)
+    (by cases arch
+        · exact Proofs.genEnumDecode_arm
+        · exact Proofs.genEnumDecode_riscv) sec _ k hsec hfile hk
+  have e : d.cfg.le = d.le := rfl
+  rw [e] at this
+  rw [this]
+  rfl
+
+open PyElf.Model PyElf.Model.C20 PyElf.Proofs PyElf.Proofs.C20 in
+/-- … and `attrs_size_overrun` for whole files: the file ends with the (complete, well-formed) section,
+    `sh_size` claims more -/
+theorem file_attributes_size_overrun (arch : Attr.Arch) (d : ElfDesc) (bytes : Bytes) (obs : ElfObs)
+    (hwf : d.wfZ Model.elfEnv = true) (hl : Layout d bytes) (ho : d.observe Model.elfEnv = .ok obs)
+    (i : Nat) (sd : SecDesc) (hsd : d.sections[i]? = some sd)
+    (hm : d.mclass = C20.mclassOf arch) (hty : Fields.get? sd.hdr "sh_type" = some (.int 0x70000003))
+    (hplain : getNatD sd.hdr "sh_flags" &&& 0x800 = 0)
+    (sec : Attr.Section) (hsec : Attr.sectionWf arch d.le sec = true)
+    (hsize : (Attr.encSection d.le sec).length < getNatD sd.hdr "sh_size")
+    (hfile : bytes.drop (getNatD sd.hdr "sh_offset") = Attr.encSection d.le sec) :
+    fileAttrSection Model.elfEnv specSF specMC bytes i = .error .elfParseError := by
+  rw [fileAttrSection_reduce TieC20File.elfEnv_c20 hwf hl ho hsd hm hty hplain]
+  have := Proofs.C20.attrs_size_overrun_at (env := Model.elfEnv) (cfg := d.cfg) (data := bytes)
+    (by cases arch
+        · exact Proofs.genEnumDecode_arm
+        · exact Proofs.genEnumDecode_riscv) sec _ _ hsec hfile hsize
+  rw [this]
+  rfl
+
+/-- A well-formed PREFIX is walked exactly, whatever the loop is heading for and whatever follows: the
+    subsection walk over `sec ++ …` towards any end at or beyond the prefix continues, after `sec`, at
+    the end of `sec` with the observations of `sec` accumulated.  (The stepping lemma behind both
+    malformed-input theorems; `Proofs.C20.subsubLoop_step` / `attributesLoop_step` are its analogues
+    one and two levels down.) -/
+theorem wellformed_prefix_walked (arch : Attr.Arch) (cfg : ElfCfg) (data : Bytes) (sec : List Attr.SubSection)
+    (fuel offset : Nat) (acc : List Val) (rest : Bytes) (end_ : Nat)
+    (hwf : ∀ s ∈ sec, Attr.subSectionWf arch cfg.le s = true)
+    (hd : data.drop offset = Attr.encSubSections cfg.le sec ++ rest)
+    (hle : offset + (Attr.encSubSections cfg.le sec).length ≤ end_) :
+    Model.Attr.subsecLoop arch Model.elfEnv (Spec.elfStructs cfg) data end_ (fuel + sec.length) offset acc
+      = Model.Attr.subsecLoop arch Model.elfEnv (Spec.elfStructs cfg) data end_ fuel
+          (offset + (Attr.encSubSections cfg.le sec).length) ((sec.map (Attr.obsSubSection arch cfg.le)).reverse ++ acc) :=
+  Proofs.C20.subsecLoop_step (env := Model.elfEnv)
+    (by cases arch
+        · exact Proofs.genEnumDecode_arm
+        · exact Proofs.genEnumDecode_riscv) sec fuel offset acc rest end_ hwf hd hle
+
 
 end PyElf.Props.C20
